@@ -28,6 +28,7 @@ type cliStep struct {
 	Clock   int64  `json:"clock"`
 	Tick    bool   `json:"tick"`
 	SetRTO  int    `json:"setrto"`
+	Do      bool   `json:"do"` // (on a caller's first step) the caller is Client.Do
 	Deliver struct {
 		Kind string `json:"kind"`
 		ID   string `json:"id"`
@@ -495,21 +496,12 @@ func (r *replayer) spawnClose() {
 func runSchedule(tw *traceWriter, sch cliSchedule) {
 	r := &replayer{depth: map[string]int{}, done: map[string]bool{}, started: map[string]bool{}, sch: sch, logging: 1,
 		isDo: map[string]bool{}, waiting: map[string]bool{}, hdone: map[string]bool{}, isInd: map[string]bool{}}
-	// which callers are Client.Do: those the model sends through D_wait; a caller whose Start is not seen returning
-	// nil in this behaviour (refused, failed or cut short) uses Do in every other schedule
-	for _, p := range []string{"s1", "s2"} {
-		viaWait, plainNil := false, false
-		for _, st := range sch.Steps {
-			if st.P == p && st.From == "S_write" && st.Wok {
-				viaWait = st.To == "D_wait"
-				plainNil = st.To == "done"
-			}
-		}
-		r.isDo[p] = viaWait || (!plainNil && sch.Tr%2 == 1)
-		for _, st := range sch.Steps {
-			if st.P == p && st.From == "idle" && st.To == "I_write" {
-				r.isInd[p], r.isDo[p] = true, false
-			}
+	// which callers are Client.Do / Client.Indicate: as the model chose at the caller's first step (a call that the
+	// model has refused at once is Start, Do or Indicate in turn, see spawnStart)
+	for _, st := range sch.Steps {
+		if st.From == "idle" {
+			r.isDo[st.P] = st.Do
+			r.isInd[st.P] = st.To == "I_write"
 		}
 	}
 	r.emit = func(m map[string]interface{}) {
